@@ -595,7 +595,7 @@ class FnTrans:
                 try:
                     s.instr(dst, p, st)
                 except Exception as e:
-                    raise RuntimeError('in %s: %s\n   %s' % (f.name, e, st[:300])) from e
+                    raise RuntimeError('%s: %s @ %s' % (type(e).__name__, e, st[:300])) from e
         hdr = '%s F_%s(%s)' % (rct, cname(f.name), ', '.join(ps) if ps else 'void')
         body = ['  %s %s;' % (ct, n) for n, ct in s.decls.items()]
         return hdr, body + ['  ' + l for l in s.lines]
@@ -872,7 +872,7 @@ class FnTrans:
     def intrinsic(s, dst, rt, name, args, argv):
         emit = s.lines.append; d = 'v_%s' % cname(dst) if dst is not None else None
         if name.startswith(('llvm.lifetime', 'llvm.dbg', 'llvm.assume', 'llvm.experimental.noalias', 'llvm.invariant', 'llvm.donothing')): return
-        const_n = args[2][2][0] == 'int'
+        const_n = len(args) > 2 and args[2] is not None and args[2][2][0] == 'int'
         if name.startswith('llvm.memcpy'): emit(('memcpy(%s, %s, %s);' if const_n else '__VERIF_memcpy(%s, %s, %s);') % tuple(argv[:3])); return
         if name.startswith('llvm.memmove'): emit(('memmove(%s, %s, %s);' if const_n else '__VERIF_memmove(%s, %s, %s);') % tuple(argv[:3])); return
         if name.startswith('llvm.memset'): emit('memset(%s, %s, %s);' % tuple(argv[:3])); return
@@ -1047,7 +1047,7 @@ def main():
             o.write('%s {\n%s\n}\n\n' % (hdr, '\n'.join(body)))
     print('translated %d functions, %d failed, %d external, %d globals' % (len(done), len(fails), len(em.ext_funcs), len(gdone)), file=sys.stderr)
     for fn in done: print('FUNC ' + n2d.get(fn, fn)[:200], file=sys.stderr)
-    for fn, msg in list(fails.items())[:20]: print('FAIL', n2d.get(fn, fn)[:120], '::', msg[:300], file=sys.stderr)
+    for fn, msg in list(fails.items())[:20]: print('FAIL', n2d.get(fn, fn)[-80:], '::', msg[:500].replace('\n', ' '), file=sys.stderr)
     for fn in em.ext_funcs:
         if fn not in done: print('EXT ', fn, '|', n2d.get(fn, fn)[:140], file=sys.stderr)
 
